@@ -147,6 +147,14 @@ def check_program(es5, Node, walkers, src, with_comments):
             exp = want[k] if k < len(want) else None
             if r != exp:
                 probs.append(('extract', 'extract(cond%d, skip=%d) is not the %d-th match / "no match"' % (ci, k, k)))
+    # the condition argument of walk is documented as ignored
+    w_ = walkers.Walker()
+    base_ = list(w_.walk(tree))
+    for label_, cond_ in (('False', lambda n_: False), ('True', lambda n_: True), ('identifiers', lambda n_: type(n_).__name__ == 'Identifier')):
+        for how_, got_ in (('positional', list(w_.walk(tree, cond_))), ('keyword', list(w_.walk(tree, condition=cond_)))):
+            if len(got_) != len(base_) or any(a_ is not b_ for a_, b_ in zip(got_, base_)):
+                probs.append(('walk with a condition', 'walk(tree, <%s>) (%s) yields %d nodes, walk(tree) yields %d' % (label_, how_, len(got_), len(base_))))
+                break
     return probs
 
 
